@@ -386,6 +386,255 @@ def smoke(ctx):
     return results
 
 
+# ------------------------------------------------------------------------------------------
+# version-compat helpers: must be pure functions of their argument (no module-level state)
+# ------------------------------------------------------------------------------------------
+# functional drivers: helper -> how to enumerate its argument domain / expected value (in the subprocess)
+COMPAT_DRIVERS = {"emu_base.utils.observable_aggregation_kwargs"}
+
+
+def _is_compat_helper(fn: ast.FunctionDef) -> bool:
+    """A module-level function that probes the installed pulser: `try: import pulser... except ImportError`,
+    or reads a version (`__version__`, importlib.metadata.version, packaging Version)."""
+    for n in ast.walk(fn):
+        if isinstance(n, ast.Try):
+            imports = [x for b in n.body for x in ast.walk(b) if isinstance(x, (ast.Import, ast.ImportFrom))]
+            catches = [ast.unparse(h.type) if h.type is not None else "" for h in n.handlers]
+            if imports and any("ImportError" in c or "ModuleNotFoundError" in c or "AttributeError" in c for c in catches):
+                return True
+        if isinstance(n, ast.Attribute) and n.attr == "__version__":
+            return True
+        if isinstance(n, ast.Call) and ast.unparse(n.func).endswith(("metadata.version", "Version")):
+            return True
+        if isinstance(n, ast.Call) and isinstance(n.func, ast.Name) and n.func.id == "hasattr":
+            return True
+    return False
+
+
+def compat_helpers():
+    """[(qualified name, relpath, stateful reasons)] for every version-compat helper found by ast."""
+    out = []
+    for pkg in PACKAGES:
+        for path in sorted((common.REPO / pkg).rglob("*.py")):
+            tree = ast.parse(path.read_text())
+            rel = str(path.relative_to(common.REPO))
+            modname = rel[:-3].replace("/", ".")
+            module_vars = set()
+            for n in tree.body:
+                targets = []
+                if isinstance(n, ast.Assign):
+                    targets = n.targets
+                elif isinstance(n, (ast.AnnAssign, ast.AugAssign)):
+                    targets = [n.target]
+                for t in targets:
+                    for x in ast.walk(t):
+                        if isinstance(x, ast.Name):
+                            module_vars.add(x.id)
+            for n in tree.body:
+                if not isinstance(n, ast.FunctionDef) or not _is_compat_helper(n):
+                    continue
+                why = []
+                params = {a.arg for a in n.args.args + n.args.kwonlyargs + n.args.posonlyargs}
+                local_stores = {x.id for x in ast.walk(n) if isinstance(x, ast.Name) and isinstance(x.ctx, ast.Store)}
+                for x in ast.walk(n):
+                    if isinstance(x, (ast.Global, ast.Nonlocal)):
+                        why.append(f"line {x.lineno}: `{ast.unparse(x)}`")
+                    if isinstance(x, ast.Name) and x.id in module_vars and x.id not in params \
+                            and not (x.id.isupper() and x.id not in local_stores):
+                        if x.id not in local_stores or any(isinstance(g, ast.Global) and x.id in g.names
+                                                           for g in ast.walk(n)):
+                            why.append(f"line {x.lineno}: uses module-level variable `{x.id}`")
+                    if isinstance(x, ast.Attribute) and isinstance(x.value, ast.Name) and x.value.id == n.name:
+                        why.append(f"line {x.lineno}: function attribute `{ast.unparse(x)}` used as a cache")
+                for d in n.decorator_list:
+                    why.append(f"decorator `{ast.unparse(d)}` (memoisation?)")
+                for d in n.args.defaults + [k for k in n.args.kw_defaults if k is not None]:
+                    if isinstance(d, (ast.List, ast.Dict, ast.Set, ast.Call)):
+                        why.append(f"mutable default argument `{ast.unparse(d)}`")
+                out.append((f"{modname}.{n.name}", rel, sorted(set(why))))
+    return out
+
+
+PURITY_SCRIPT = r"""
+import importlib, itertools, json, sys, warnings
+warnings.simplefilter("ignore")
+import emu_base.utils as U
+try:
+    from pulser.backend.observable import AggregationMethod
+    members = [m.name for m in AggregationMethod]
+except ImportError:
+    AggregationMethod, members = None, ["SKIP", "MEAN"]
+
+def want(m):
+    return {} if AggregationMethod is None else {"default_aggregation_method": getattr(AggregationMethod, m)}
+
+def show(d):
+    return {k: getattr(v, "name", repr(v)) for k, v in d.items()}
+
+orders = [list(p) for p in itertools.permutations(members, 2)]
+orders += [[a, a, b, a] for a, b in itertools.permutations(members, 2)]
+orders += [list(p) for p in itertools.permutations(members)][:24]
+orders += [["MEAN", "SKIP"], ["SKIP", "MEAN"]] if AggregationMethod is not None and {"MEAN", "SKIP"} <= set(members) else []
+bad = []
+for order in orders:
+    importlib.reload(U)          # fresh module state: what a fresh process would see
+    got = []
+    for m in order:
+        r = U.observable_aggregation_kwargs(m)
+        got.append(show(r))
+        if r != want(m) and not bad:
+            bad.append({"order": order, "call": m, "returned": show(r), "expected": show(want(m))})
+        r["poisoned"] = 1        # a caller mutating its kwargs must not affect later callers
+    if bad:
+        break
+print("@@PURITY " + json.dumps({"members": members, "orders": len(orders), "bad": bad}))
+"""
+
+SCENARIO_SCRIPT = r"""
+import json, logging, math, sys, traceback, warnings
+warnings.simplefilter("ignore")
+import torch, pulser
+from pulser.backend import Occupation
+import emu_mps, emu_sv
+scenario = sys.argv[1]
+out = {"scenario": scenario, "pulser": pulser.__version__, "steps": []}
+
+def seq():
+    reg = pulser.Register({"q0": [0.0, 0.0], "q1": [7.0, 0.0]})
+    s = pulser.Sequence(reg, pulser.MockDevice)
+    s.declare_channel("ryd", "rydberg_global")
+    s.add(pulser.Pulse.ConstantPulse(60, 4.0, 0.0, 0.0), "ryd")
+    return s
+
+NOISES = {"amp_sigma": dict(amp_sigma=0.05), "state_prep_error": dict(state_prep_error=1e-9)}
+
+def step(name, fn):
+    try:
+        info = fn()
+        out["steps"].append({"step": name, "ok": True, "info": info})
+    except Exception as ex:
+        out["steps"].append({"step": name, "ok": False, "kind": "raises",
+                             "error": f"{type(ex).__name__}: {ex}", "tb": traceback.format_exc()[-900:]})
+
+def finite(x):
+    t = torch.as_tensor(x, dtype=torch.float64)
+    return bool(torch.isfinite(t).all())
+
+def run(pkg, obs, noise, ntraj):
+    kw = dict(observables=obs, log_level=logging.CRITICAL, n_trajectories=ntraj,
+              noise_model=pulser.NoiseModel(**NOISES[noise]))
+    if pkg is emu_mps:
+        r = emu_mps.MPSBackend(seq(), config=emu_mps.MPSConfig(optimize_qubit_ordering=False, **kw)).run()
+    else:
+        r = emu_sv.SVBackend(seq(), config=emu_sv.SVConfig(**kw)).run()
+    tags = sorted(r.get_result_tags())
+    missing = [o.tag for o in obs if o.tag not in tags]
+    if missing:
+        raise LookupError(f"observable-dropped: {missing} missing from aggregated results {tags}")
+    for o in obs:
+        v = r.get_result(o, 1.0)
+        if not finite(v):
+            raise ArithmeticError(f"non-finite aggregated value for {o.tag}")
+    return {"tags": tags}
+
+def entropies():
+    emu_mps.EntanglementEntropy(mps_site=0)
+    emu_mps.EntanglementEntropy(mps_site=0, tag_suffix="b")
+    return emu_mps.EntanglementEntropy(mps_site=0, evaluation_times=[1.0])
+
+occ = lambda: Occupation(evaluation_times=[1.0])
+if scenario == "construct-then-run":
+    holder = {}
+    step("construct EntanglementEntropy (3 call shapes)", lambda: holder.setdefault("e", entropies()) and None)
+    for noise in NOISES:
+        step(f"emu-mps 3 trajectories {noise} Occupation+EntanglementEntropy",
+             lambda: run(emu_mps, [occ(), holder["e"]], noise, 3))
+        step(f"emu-sv 3 trajectories {noise} Occupation", lambda: run(emu_sv, [occ()], noise, 3))
+else:  # run-then-construct
+    step("emu-sv single trajectory Occupation", lambda: run(emu_sv, [occ()], "amp_sigma", 1))
+    step("emu-mps single trajectory Occupation", lambda: run(emu_mps, [occ()], "amp_sigma", 1))
+    holder = {}
+    step("construct EntanglementEntropy afterwards", lambda: holder.setdefault("e", entropies()) and None)
+    for noise in NOISES:
+        step(f"emu-mps 3 trajectories {noise} Occupation+EntanglementEntropy",
+             lambda: run(emu_mps, [occ(), holder["e"]], noise, 3))
+        step(f"emu-sv 3 trajectories {noise} Occupation", lambda: run(emu_sv, [occ()], noise, 3))
+print("@@SCENARIO " + json.dumps(out))
+"""
+SCENARIOS = ["construct-then-run", "run-then-construct"]
+
+
+def _subprocess(script, args=(), timeout=600):
+    import subprocess
+    try:
+        p = subprocess.run([common.PY, "-c", script, *args], env=common.env_for_impl(), capture_output=True,
+                           text=True, timeout=timeout, cwd="/var/tmp")
+        return p.returncode, p.stdout, p.stderr
+    except subprocess.TimeoutExpired:
+        return 124, "", "timeout"
+
+
+def _marker(out, tag):
+    for line in out.splitlines():
+        if line.startswith(tag + " "):
+            return json.loads(line[len(tag) + 1:])
+    return None
+
+
+def run_scenario(name):
+    rc, out, err = _subprocess(SCENARIO_SCRIPT, [name])
+    res = _marker(out, "@@SCENARIO")
+    if res is None:
+        return {"scenario": name, "steps": [{"step": "subprocess", "ok": False, "kind": "raises",
+                                             "error": f"rc={rc}", "tb": (err or out)[-900:]}]}
+    return res
+
+
+def report_scenario(ctx, res):
+    for st in res["steps"]:
+        ctx.count_case({"scenario": res["scenario"], "step": st["step"]}, True)
+        if st["ok"]:
+            continue
+        dropped = st["error"].startswith("LookupError: observable-dropped")
+        key = "observable-dropped-from-aggregate" if dropped else (
+            "multi-trajectory-run-fails" if "trajector" in st["step"] else "pulser-api-mismatch")
+        ctx.violation(f"fresh process, scenario {res['scenario']}, under pulser-core {res.get('pulser')}: "
+                      f"{st['step']} -> {st['error']}",
+                      {"case": {"scenario": res["scenario"], "step": st["step"]}, "error": st["error"],
+                       "traceback": st.get("tb", ""), "finding_key": key})
+
+
+def compat_stage(ctx):
+    """(1) ast: compat helpers keep no module-level state; (2) functional: result depends only on the argument."""
+    helpers = compat_helpers()
+    ctx.extra["compat_helpers"] = [h[0] for h in helpers]
+    stateful = [(h, why) for h, _, why in helpers if why]
+    unknown = [h for h, _, _ in helpers if h not in COMPAT_DRIVERS]
+    missing = [h for h in COMPAT_DRIVERS if h not in [x[0] for x in helpers]]
+    ctx.obligation("compat-helpers:stateless (no global/nonlocal, module-level variable, cache decorator, mutable "
+                   "default) in every version-compat helper found by ast",
+                   not stateful and not unknown and not missing,
+                   "; ".join(f"{h}: {', '.join(why)}" for h, why in stateful)
+                   + ("; no functional driver for " + ", ".join(unknown) if unknown else "")
+                   + ("; expected helper not found: " + ", ".join(missing) if missing else ""), kind="translator")
+    rc, out, err = _subprocess(PURITY_SCRIPT)
+    res = _marker(out, "@@PURITY")
+    ok = res is not None and not res["bad"]
+    ctx.obligation("correspondence:observable_aggregation_kwargs(m) == {default_aggregation_method: m} (or {} without "
+                   "AggregationMethod) for every member, in every call order, from fresh module state", ok,
+                   json.dumps(res["bad"]) if res else f"rc={rc} {(err or out)[-600:]}", kind="correspondence")
+    if res:
+        ctx.extra["compat_purity"] = {"members": res["members"], "orders": res["orders"]}
+        for _ in range(res["orders"]):
+            ctx.count_case({"purity_order": _}, True)
+    if res and res["bad"]:
+        b = res["bad"][0]
+        ctx.violation(f"observable_aggregation_kwargs({b['call']!r}) returned {b['returned']} instead of {b['expected']} "
+                      f"after the calls {b['order']} from fresh module state: the result depends on call history"
+                      + (f" ({'; '.join(w for _, why in stateful for w in why)})" if stateful else ""),
+                      {"case": {"purity_order": b["order"]}, "detail": b, "finding_key": "compat-helper-stateful"})
+
+
 def corpus_cases():
     p = common.VERIF / "corpus" / "C31.json"
     return json.loads(p.read_text()) if p.exists() else []
@@ -445,6 +694,12 @@ def run(ctx):
             ctx.violation(f"under pulser-core {importlib.metadata.version(DIST)} (admitted by the declared "
                           f"specifier): {what} failed: {why}",
                           {"case": {"smoke": what}, "error": why, "finding_key": "pulser-api-mismatch"})
+    # compat shims must be pure; order- and trajectory-aware smoke runs in fresh processes
+    compat_stage(ctx)
+    from concurrent.futures import ThreadPoolExecutor
+    with ThreadPoolExecutor(max_workers=2) as ex:
+        for res in ex.map(run_scenario, SCENARIOS):
+            report_scenario(ctx, res)
     # every extracted call really binds under CPython (independent of the Coq model)
     for c in calls:
         if real_bind_ok(c["sig"], c["npos"], c["kws"]) is False:
@@ -501,7 +756,9 @@ def run(ctx):
                    kind="correspondence")
     ctx.rule = ("random signatures (<= 3 positional, <= 3 keyword-only, *args/**kwargs) and the extracted pulser "
                 "signatures x random call shapes (valid-biased and arbitrary keyword subsets incl. unknown names); "
-                "plus smoke run: both backends end to end and every exported observable constructed")
+                "plus smoke run: both backends end to end and every exported observable constructed; compat helper called in "
+                "every order from fresh module state; fresh-process scenarios construct-then-run / run-then-construct "
+                "with n_trajectories=3 under amp_sigma and state_prep_error noise")
     ctx.trusted_base += ["extractors in tools/props/c31.py: only calls whose callee resolves statically (module-level "
                          "names, super().__init__) are seen; method calls on pulser objects are not",
                          "inspect.signature of the installed pulser-core"]
@@ -515,6 +772,16 @@ def run(ctx):
 def replay(ctx, path):
     rp = json.loads(open(path).read())
     print("replay:", rp.get("case"))
+    case = rp.get("case") or {}
+    if "scenario" in case:
+        res = run_scenario(case["scenario"])
+        for st in res["steps"]:
+            print(("ok   " if st["ok"] else "FAIL ") + st["step"] + ("" if st["ok"] else ": " + st["error"]))
+        report_scenario(ctx, res)
+        return
+    if "purity_order" in case:
+        compat_stage(ctx)
+        return
     for what, ok, why in smoke(ctx):
         print(("ok   " if ok else "FAIL ") + what + (": " + why if why else ""))
         if not ok:
